@@ -433,6 +433,8 @@ for n, w, t in (("c08_mp_blk00_send_lap", "mpmc N=1 BlockingWait(0,0), lapped ri
                 ("c08_bc_blk00_sibling_lap", "broadcast N=1 BlockingWait(0,0), lapped ring: blocked recv, two sends (the ring is lapped again), a sibling consumer takes one value", "quick"),
                 ("c08_mp_blk00_lonesender_lap", "mpmc N=1 BlockingWait(0,0), lapped ring: blocked recv; the other sender handle is dropped, then the remaining (formerly multi-writer) sender sends", "quick"),
                 ("c08_bc_blk11_lonesender_lap", "broadcast N=2 BlockingWait(1,1), lapped ring: blocked recv; other sender dropped, remaining sender sends", "thorough"),
+                ("c08_mp_blk00_exmulti_lap", "mpmc N=1 BlockingWait(0,0), lapped ring: blocked recv vs the first send of a sender that was cloned and whose clone was dropped again during set-up (Multi -> single-writer fallback path of try_send)", "thorough"),
+                ("c08_bc_blk00_exmulti_lap", "broadcast N=2 BlockingWait(0,0), lapped ring: as c08_mp_blk00_exmulti_lap", "thorough"),
                 ("c08_bc_blk20_view_lap", "broadcast N=1 BlockingWait(2,0), lapped ring: blocked recv_view vs one send", "thorough")):
     H(n, W, "C08", ["C08", "C07", "C12"], t,
       w + "; sender/sibling operations run at every preemption point of the waiter and inside the condvar wait; stuck detector; witness: the receiver really slept",
